@@ -413,6 +413,11 @@ def _replace(root, old, new):
     return False
 
 
+def _new(chk):
+    from spverif.report import new_violations
+    return new_violations(chk)
+
+
 def evaluate(job):
     rel, text, desc, kind = job
     fired = {}
@@ -420,7 +425,7 @@ def evaluate(job):
     for p in PROPS:
         code, chk = run_property(p, "quick", overlay={rel: text}, write=False, out=lambda *_: None)
         if code == 1:
-            fired[p] = sorted({"%s @ %s" % (v.rule, v.key) for v in chk.violations()})
+            fired[p] = sorted({"%s @ %s" % (v.rule, v.key) for v in _new(chk)})
         elif code == 2:
             indet[p] = [str(e)[:160] for e in chk.errors[:2]]
     return {"file": rel, "rewrite": desc, "kind": kind, "fired": fired, "indeterminate": indet}
